@@ -346,6 +346,10 @@ func SamRecord(r IRec, hd *sam.Header, i int) *sam.Record {
 	rec.Ref = hd.Refs()[r.Ref]
 	if !r.Mapped {
 		rec.Flags = sam.Unmapped
+		if i%3 == 0 {
+			// a pair of unmapped reads kept at a position (both flags set)
+			rec.Flags |= sam.Paired | sam.MateUnmapped
+		}
 		return rec
 	}
 	l := r.End - r.Start
